@@ -347,7 +347,29 @@ func checkC39(c *Ctx, r *Report) {
 				}
 				ok1 := checkGuarded(m, sb, call.(ssa.Instruction), rng('a', 'z')).OK
 				ok2 := checkGuarded(m, sb, call.(ssa.Instruction), rng('0', '9')).OK
-				if ok1 || ok2 {
+				// or a local predicate on the rune whose accepted set lies inside [a-z0-9]
+				pred := Guard{cl(atomFn("alnum predicate on the rune", func(l Lit) bool {
+					if l.Op != token.ILLEGAL || l.Neg {
+						return false
+					}
+					pc, ok := strip(l.X).(*ssa.Call)
+					if !ok || len(pc.Call.Args) != 1 || strip(pc.Call.Args[0]) != strip(rr) {
+						return false
+					}
+					pf, _ := calleeOf(&pc.Call)
+					acc, okc, _ := predClass(pf)
+					if !okc {
+						return false
+					}
+					for c := 0; c <= 256; c++ {
+						if acc[c] && !((c >= 'a' && c <= 'z') || (c >= '0' && c <= '9')) {
+							return false
+						}
+					}
+					return true
+				}))}
+				ok3 := checkGuarded(m, sb, call.(ssa.Instruction), pred).OK
+				if ok1 || ok2 || ok3 {
 					r.ok("C39.R2", "sanitizeBucketName copies only [a-z0-9] runes", m.Pos(call.Pos()), "")
 				} else {
 					r.viol("C39.R2", "sanitizeBucketName copies only [a-z0-9] runes", m.Pos(call.Pos()), "a rune outside [a-z] / [0-9] can be written to the bucket name")
